@@ -4,26 +4,37 @@ targets (or the checks given with --props), revert, and record the outcome in se
 ("detected_by").  usage: tools/seed_matrix.py [--tier quick] [--props C01,C02] [ids...]"""
 import json, os, subprocess, sys, time
 ROOT = os.path.dirname(os.path.dirname(os.path.abspath(__file__)))
-args = sys.argv[1:]; tier = "quick"; props = None; ids = []
+args = sys.argv[1:]; tier = "quick"; props = None; ids = []; ISO_ARG = None; RECORD = True
 while args:
     a = args.pop(0)
     if a == "--tier": tier = args.pop(0)
     elif a == "--props": props = args.pop(0).split(",")
+    elif a == "--iso": ISO_ARG = args.pop(0)
+    elif a == "--norecord": RECORD = False
     else: ids.append(a)
-if not ids: ids = sorted(d for d in os.listdir(ROOT + "/seeded") if os.path.exists(f"{ROOT}/seeded/{d}/patch.diff"))
+ISO = ISO_ARG or "/var/tmp/zvm"
 def sh(cmd, **kw): return subprocess.run(cmd, shell=True, capture_output=True, text=True, **kw)
-if sh("git -C /repo status --porcelain --untracked-files=no").stdout.strip():
-    print("repo dirty"); sys.exit(2)
+# Isolation: the matrix works on its own copies (a git worktree of /repo HEAD and an rsync of /verif's working
+# tree with the path dependency rewritten), so /repo and /verif stay untouched and can be worked on meanwhile.
+REPO = ISO + "/repo"; VER = ISO + "/verif"
+os.makedirs(ISO, exist_ok=True)
+sh(f"git -C /repo worktree remove --force {REPO}"); sh("git -C /repo worktree prune")
+r = sh(f"git -C /repo worktree add --detach {REPO} HEAD")
+if r.returncode != 0: print("worktree failed", r.stderr); sys.exit(2)
+sh(f"mkdir -p {VER} && rsync -a --delete --exclude .git --exclude harness/target --exclude harness/fuzz/target --exclude 'harness/fuzz/run-*' --exclude probes/c20_sendsync/target --exclude replays --exclude evidence {ROOT}/ {VER}/")
+sh(f"mkdir -p {VER}/evidence {VER}/replays")
+sh(f"sed -i 's#path = \"/repo\"#path = \"{REPO}\"#' {VER}/harness/Cargo.toml {VER}/harness/fuzz/Cargo.toml {VER}/probes/c20_sendsync/Cargo.toml")
+if not ids: ids = sorted(d for d in os.listdir(ROOT + "/seeded") if os.path.exists(f"{ROOT}/seeded/{d}/patch.diff"))
 for i in ids:
     d = f"{ROOT}/seeded/{i}"; mp = d + "/meta.json"
     meta = json.load(open(mp)) if os.path.exists(mp) else {"id": i, "breaks_property": i[:3]}
-    r = sh(f"git -C /repo apply {d}/patch.diff")
+    r = sh(f"git -C {REPO} apply {d}/patch.diff")
     if r.returncode != 0:
         print(i, "NOAPPLY", r.stderr.strip()[:200]); continue
     det = [x for x in meta.get("detected_by", []) if isinstance(x, dict)]
     try:
         for p in (props or [meta.get("breaks_property", i[:3])]):
-            t0 = time.time(); r = sh(f"cd {ROOT} && ./check {p} {tier}"); dt = time.time() - t0
+            t0 = time.time(); r = sh(f"cd {VER} && ./check {p} {tier}"); dt = time.time() - t0
             out = r.stdout + r.stderr
             viol = [l for l in out.splitlines() if l.startswith("VIOLATION")]
             msg = [l.strip() for l in out.splitlines() if "message=" in l or "msg=" in l][:1]
@@ -32,6 +43,7 @@ for i in ids:
             det = [x for x in det if x.get("check") != rec["check"]] + [rec]
             print(i, p, tier, "exit=%d" % r.returncode, "DETECTED" if rec["detected"] else "MISSED", "%.0fs" % dt, (msg[0][:140] if msg else ""), flush=True)
     finally:
-        sh("git -C /repo checkout -- .")
+        sh(f"git -C {REPO} checkout -- .")
     meta["detected_by"] = det
-    json.dump(meta, open(mp, "w"), indent=1)
+    if RECORD: json.dump(meta, open(mp, "w"), indent=1)
+sh(f"git -C /repo worktree remove --force {REPO}")
